@@ -1,6 +1,7 @@
 package vc
 
 import (
+	"context"
 	"fmt"
 	"os"
 	"path/filepath"
@@ -102,7 +103,7 @@ func (s *Session) DischargeAll(results []*FuncResult, sub string) {
 	var jobs []*Obligation
 	for _, r := range results {
 		for i, o := range r.Obligations {
-			if o.Status != "" {
+			if o.Status != "" || o.Cover {
 				continue
 			}
 			_ = i
@@ -197,5 +198,79 @@ func Summarize(results []*FuncResult) []*OblSummary {
 	for _, n := range order {
 		out = append(out, m[n])
 	}
+	return out
+}
+
+// CoverResult: vacuity guard for one ensures clause of one function.
+type CoverResult struct {
+	Func, Label string
+	Status      string // reachable (sat), possibly-reachable (unknown/timeout), vacuous (every path unsat)
+	Tried       int
+}
+
+// VacuityCheck: for every ensures clause, some return path must be compatible with the
+// clause's antecedent (the query  path && antecedent  must not be unsat on every path).
+func (s *Session) VacuityCheck(results []*FuncResult, sub string) []*CoverResult {
+	type group struct {
+		fn, label string
+		obls      []*Obligation
+	}
+	groups := map[string]*group{}
+	var order []string
+	for _, r := range results {
+		for _, o := range r.Obligations {
+			if !o.Cover {
+				continue
+			}
+			k := o.Func + "#" + o.Name
+			g, ok := groups[k]
+			if !ok {
+				g = &group{fn: o.Func, label: strings.TrimPrefix(o.Name, "cover:")}
+				groups[k] = g
+				order = append(order, k)
+			}
+			g.obls = append(g.obls, o)
+		}
+	}
+	dir := filepath.Join(s.WorkDir, sub+"_cover")
+	os.RemoveAll(dir)
+	os.MkdirAll(dir, 0o755)
+	out := make([]*CoverResult, len(order))
+	var wg sync.WaitGroup
+	sem := make(chan struct{}, s.Parallel)
+	for gi, k := range order {
+		g := groups[k]
+		wg.Add(1)
+		sem <- struct{}{}
+		go func(gi int, g *group) {
+			defer wg.Done()
+			defer func() { <-sem }()
+			cr := &CoverResult{Func: g.fn, Label: g.label, Status: "vacuous"}
+			for i, o := range g.obls {
+				if o.Goal.IsTrue() { // antecedent simplifies to false on this path
+					cr.Tried++
+					continue
+				}
+				text, _ := s.Ex.Prelude.Emit(&Query{Hyps: o.Hyps, Goal: o.Goal}, false)
+				file, err := WriteQuery(dir, fmt.Sprintf("%03d_%03d_%s", gi, i, o.FullName()), text)
+				if err != nil {
+					continue
+				}
+				cr.Tried++
+				res := runSolver(context.Background(), solverCfgs[0], file, 2)
+				o.Status = res.Status
+				if res.Status == "sat" {
+					cr.Status = "reachable"
+					break
+				}
+				if res.Status != "unsat" {
+					cr.Status = "possibly-reachable"
+					break
+				}
+			}
+			out[gi] = cr
+		}(gi, g)
+	}
+	wg.Wait()
 	return out
 }
